@@ -31,6 +31,8 @@ struct Case {
     entry: Entry,
     /// named fields are raw identifiers
     raw: bool,
+    /// generic types: `Debug(bound(T: Debug))` instead of the default bounds
+    explicit_bound: bool,
 }
 
 const TYS: [&str; 4] = ["i32", "&'static str", "f64", "Inner"];
@@ -76,6 +78,10 @@ fn gen(ch: &mut Ch, thorough: bool) -> Option<Case> {
         }
         marks.push(m);
     }
+    let explicit_bound = ch.flag();
+    if explicit_bound && (!generic || entry == Entry::Derive || dev > 1) {
+        return None;
+    }
     let raw = ch.flag();
     if raw && (generic || entry == Entry::Derive || dev > 1 || !shape.variants.iter().any(|v| v.kind == SKind::Named && v.n > 0)) {
         return None;
@@ -89,7 +95,7 @@ fn gen(ch: &mut Ch, thorough: bool) -> Option<Case> {
     if generic && dev > 1 && !thorough {
         return None;
     }
-    Some(Case { vector: ch.vector(), shape, marks, generic, entry, raw })
+    Some(Case { vector: ch.vector(), shape, marks, generic, entry, raw, explicit_bound })
 }
 
 fn two_transparent(c: &Case) -> bool {
@@ -160,9 +166,10 @@ fn build_inner(c: &Case, tier: &str) -> XCase {
     let sh = &c.shape;
     let item = item_of(c);
     let twin = twin_of(c);
+    let list = if c.explicit_bound { "Debug(bound(T: ::core::fmt::Debug))" } else { "Debug" };
     let head = match c.entry {
-        Entry::Attr => "#[derive_ex(Debug)]".to_string(),
-        Entry::Derive => "#[derive(Ex)]\n#[derive_ex(Debug)]".to_string(),
+        Entry::Attr => format!("#[derive_ex({list})]"),
+        Entry::Derive => format!("#[derive(Ex)]\n#[derive_ex({list})]"),
     };
     let mut s = String::new();
     s.push_str("#[derive(Debug, Clone, Copy)] pub struct Inner { pub a: u8, pub b: Option<i8> }\n");
@@ -219,7 +226,7 @@ fn build_inner(c: &Case, tier: &str) -> XCase {
     atoms.insert(format!("ignored={nign}"));
     atoms.insert(format!("transparent={ntr}"));
     XCase {
-        text: format!("{} {}", c.entry.name(), item.print()),
+        text: format!("{} {} {}", c.entry.name(), list, item.print()),
         code: s,
         expected: exp,
         atoms,
